@@ -92,6 +92,9 @@ def run_case(case):
            'fields': fields, 'dumps': []}
     cov['config']['%s/batch%d/bloom%s' % (keymode, batch, bloom)] = 1
     model = []          # list of row dicts
+    two_tables = rng.random() < 0.4      # a second resource dumped to its own table by the same step + a bystander
+    model2 = []
+    cfg['two_tables'] = two_tables
     nontrivial = False
     modes = []
 
@@ -171,9 +174,18 @@ def run_case(case):
         steps = [lab.source('res', gen.schema_fields(fields), rows)]
         if use_pk:
             steps.append(d.set_primary_key(list(keys)))
+        tables_cfg = {'tbl': table}
+        rows2 = bystander = None
+        if two_tables:
+            rows2 = [{'k1': rng.randint(0, 5), 'name': 'o%d-%d' % (di, i)} for i in range(rng.choice([0, 2, 5]))]
+            bystander = [{'k1': i, 'name': 'by%d' % i} for i in range(3)]
+            f2 = gen.schema_fields([('k1', 'integer'), ('name', 'string')])
+            steps += [lab.source('other', f2, rows2), lab.source('bystander', f2, bystander)]
+            tables_cfg['tbl2'] = {'resource-name': 'other', 'mode': 'append'}
+            model2.extend(dict(r) for r in rows2)
         try:
             with boot.quiet():
-                step = d.dump_to_sql({'tbl': table}, engine=engine, **kw)
+                step = d.dump_to_sql(tables_cfg, engine=engine, **kw)
         except Exception as e:
             add('dump_construct', 'dump %d: %s' % (di, e), 'construct')
             break
@@ -207,6 +219,21 @@ def run_case(case):
                             % (di, mode, i, keyof(a), b.get('_upd'), exp_flags[i]),
                             'updated_flag/%s%s' % (mode, '/dup_in_dump' if [keyof(x) for x in rows[:i]].count(keyof(a)) else ''))
                         break
+        if two_tables:
+            if len(out.results) != 3 or lab.rows_diff(bystander, out.results[2]) or \
+                    [(r['k1'], r['name']) for r in out.results[1]] != [(r['k1'], r['name']) for r in rows2]:
+                add('downstream_other', 'dump %d: rows of the other resources changed downstream' % di, 'downstream_other')
+            con2 = sqlite3.connect(dbfile)
+            try:
+                got2 = sorted(con2.execute('SELECT k1, name FROM tbl2').fetchall())
+                names = [r[0] for r in con2.execute("SELECT name FROM sqlite_master WHERE type='table'").fetchall()]
+            finally:
+                con2.close()
+            if got2 != sorted((r['k1'], r['name']) for r in model2):
+                add('second_table', 'dump %d: second table holds %d rows, model %d' % (di, len(got2), len(model2)),
+                    'second_table')
+            if 'bystander' in names or len([n for n in names if n.startswith('tbl')]) != 2:
+                add('unexpected_tables', 'dump %d: tables in the database: %r' % (di, names), 'unexpected_tables')
         # table state
         con = sqlite3.connect(dbfile)
         try:
